@@ -648,8 +648,11 @@ class LinComb:
         """
         from pysnark.boolean import LinCombBool
 
-        ret = PrivVal(1 if self.value == 0 else 0)
-        wit = PrivVal(backend.fieldinverse(self.value + (self.value == 0))) # Add self.value == 0 to prevent ZeroDivisionError
+        # on the error path (ignore_errors / false guard) values are dummies that may be a non-zero multiple of the field
+        # order: such a wire is zero, and it has no inverse
+        iszero = self.value == 0 or (ignore_errors() and self.value % backend.get_modulus() == 0)
+        ret = PrivVal(1 if iszero else 0)
+        wit = PrivVal(backend.fieldinverse(self.value + iszero)) # Add iszero to prevent ZeroDivisionError
         
         # Trick from Pinocchio paper: if self is zero then ret=1 by first eq,
         # if self is nonzero then ret=0 by second eq
